@@ -95,6 +95,7 @@ class Func:
         self.prologue = []
         self.epilogue = []
         self.whole = False
+        self.range_end = None
         self.kind = 'fn'
         self.tmpl_line = 0
         self.raw = None
@@ -205,15 +206,39 @@ def build_func(unit, f, grws):
         m2 = re.compile(f.region, re.M).search(S.text, m.end(), fb)
         if m2:
             raise ExtractError('%s: region anchor %r ambiguous in %s' % (S.path, f.region, f.name))
-        # block = first '{' at or after match start
-        ti = next(i for i, t in enumerate(S.toks) if t.start >= m.start() and t.text == '{' and t.kind == 'punct')
-        te = match_close(S.toks, ti)
-        a, b = S.toks[ti].start, S.toks[te].end
-        if b > fb:
-            raise ExtractError('region block escapes function')
-        if f.whole:
+        if f.range_end:
+            # statement range: from the line of the start anchor to the line of the end anchor (inclusive),
+            # or to the end of the function body
             a = S.text.rfind('\n', 0, m.start()) + 1
-        raw = S.text[a:b]
+            if f.range_end == 'END':
+                b = S.toks[loc['body_close']].start
+            else:
+                me = re.compile(f.range_end, re.M).search(S.text, m.end(), fb)
+                if not me:
+                    raise ExtractError('%s: range end anchor %r not found in %s' % (S.path, f.range_end, f.name))
+                b = S.text.find('\n', me.end())
+                b = fb if b < 0 else b
+            raw = S.text[a:b]
+            d = 0
+            for t in tokenize(raw):
+                if t.kind == 'punct' and t.text in '([{':
+                    d += 1
+                elif t.kind == 'punct' and t.text in ')]}':
+                    d -= 1
+                    if d < 0:
+                        break
+            if d != 0:
+                raise ExtractError('%s: statement range in %s is not bracket-balanced' % (S.path, f.name))
+        else:
+            # block = first '{' at or after match start
+            ti = next(i for i, t in enumerate(S.toks) if t.start >= m.start() and t.text == '{' and t.kind == 'punct')
+            te = match_close(S.toks, ti)
+            a, b = S.toks[ti].start, S.toks[te].end
+            if b > fb:
+                raise ExtractError('region block escapes function')
+            if f.whole:
+                a = S.text.rfind('\n', 0, m.start()) + 1
+            raw = S.text[a:b]
         f.repo_line = S.line_of(a)
     f.repo_file = S.path
     f.raw = raw
@@ -388,6 +413,8 @@ def parse_template(path, mutation=None):
                             cur.outname = r[3:].strip()
                         if r == 'whole':
                             cur.whole = True
+                        if r.startswith('to '):
+                            cur.range_end = 'END' if r[3:].strip() == 'end' else parse_regex(r[3:])[0]
                 section = None
                 continue
             if d.startswith('pin '):
